@@ -40,6 +40,13 @@ def check(run):
         # element that leaves the window (or the window's first index) at the right step
         drivers.check_drivers(run, F, rules=('DRV.len', 'DRV.early', 'SEQ.len', 'DRV.args', 'DRV.iter',
                                              'DRV.cover'))
+        if cfg == 'base':
+            # past the count gate the statistic is defined: a variance floor that tests something other
+            # than the variance sends a defined window to sqrt of a non-positive number (NaN = null)
+            import casrules
+            run.rule('VAR.floor', casrules.FLOOR_RULE)
+            nf_ = casrules.check_floors(run, F, ('features.rs', 'binary.rs', 'norm.rs'))
+            run.floor('VAR.floor', 'variance floors', nf_, 11)
     # every container the generic code can be instantiated with hands out its elements in logical order
     from common import dep_backends as _dep_backends
     _dep_backends(run)
